@@ -33,6 +33,25 @@ pub fn vjson(v: &V) -> Value {
             Some(SpecializedValue::Str(s)) => json!({"k": "str", "v": s.value}),
             Some(SpecializedValue::String(s)) => json!({"k": "string", "v": s.value}),
             Some(SpecializedValue::Cell(c)) | Some(SpecializedValue::RefCell(c)) => json!({"k": "cell", "value": vjson(c)}),
+            Some(SpecializedValue::Vector(v)) | Some(SpecializedValue::VecDeque(v)) => {
+                let kind = if matches!(value, Some(SpecializedValue::Vector(_))) { "vec" } else { "vecdeque" };
+                let items = v.structure.members.iter().find_map(|m| match &m.value {
+                    V::Array(a) => Some(a.items.as_ref().map(|it| it.iter().map(|i| vjson(&i.value)).collect::<Vec<_>>()).unwrap_or_default()),
+                    _ => None,
+                });
+                let cap = v.structure.members.iter().find(|m| m.field_name.as_deref() == Some("cap")).map(|m| vjson(&m.value));
+                json!({"k": kind, "t": v.structure.type_ident.name_fmt(), "items": items, "cap": cap})
+            }
+            Some(SpecializedValue::HashMap(m)) | Some(SpecializedValue::BTreeMap(m)) => {
+                let kind = if matches!(value, Some(SpecializedValue::HashMap(_))) { "hashmap" } else { "btreemap" };
+                json!({"k": kind, "t": m.type_ident.name_fmt(), "kv": m.kv_items.iter().map(|(k, v)| json!([vjson(k), vjson(v)])).collect::<Vec<_>>()})
+            }
+            Some(SpecializedValue::HashSet(h)) | Some(SpecializedValue::BTreeSet(h)) => {
+                let kind = if matches!(value, Some(SpecializedValue::HashSet(_))) { "hashset" } else { "btreeset" };
+                json!({"k": kind, "t": h.type_ident.name_fmt(), "items": h.items.iter().map(vjson).collect::<Vec<_>>()})
+            }
+            Some(SpecializedValue::Rc(p)) | Some(SpecializedValue::Arc(p)) => json!({"k": "rc", "t": p.type_ident.name_fmt(), "addr": p.value.map(|x| x as usize as u64)}),
+            Some(SpecializedValue::Tls(t)) => json!({"k": "tls", "t": t.inner_type.name_fmt(), "value": t.inner_value.as_ref().map(|v| vjson(v))}),
             Some(_) => json!({"k": "specialized-other", "t": original.type_ident.name_fmt()}),
             None => json!({"k": "specialized-none", "t": original.type_ident.name_fmt()}),
         },
